@@ -116,3 +116,236 @@ for fname, direction, dataname in [("_encrypt_symmetric", 'encryptor', 'plain_te
     c.raises(('exceptions.InvalidField', 'exceptions.CryptographicFailure'))
     c.may_raise_anything()
     c.trace("same-cipher-term-fed-and-finalized", make_cipher_predicate(direction))
+
+
+# ---------------------------------------------------------------- wrap_key, create_symmetric_key, mac
+def t_wrap(ev, outcome, exc, path, I):
+    """RFC 3394 wrap: aes_key_wrap(wrapping key, key material) - in that order - and its result is
+    what is returned."""
+    if outcome != 'return':
+        return True
+    calls = [e for e in _ext(ev) if e[1].endswith('aes_key_wrap')]
+    if len(calls) != 1:
+        return "%d key wrap calls" % len(calls)
+    a = calls[0][2]
+    if len(a) < 2 or a[0] is not I.ghost_globals['__key__'] or a[1] is not I.ghost_globals['__data__']:
+        return "aes_key_wrap is not called as (wrapping key, key material)"
+    if I.ghost_globals.get('__result__') is not calls[0][4]:
+        return "the value returned is not the result of the key wrap"
+    return True
+
+
+c = contract(CE + "wrap_key").props('C06')
+c.args(self=ENGINE, key_material=KEY, wrapping_method=('enum', 'kmip.core.enums.WrappingMethod'),
+       key_wrap_algorithm=MODE, encryption_key=KEY)
+c.let('__key__', 'encryption_key').let('__data__', 'key_material')
+c.allow_external()
+c.raises(('exceptions.InvalidField', 'exceptions.CryptographicFailure'))
+c.trace("rfc3394-wrap-of-the-material-under-the-wrapping-key", t_wrap)
+
+
+def t_fresh_key(ev, outcome, exc, path, I):
+    """Generated key material is a fresh os.urandom value of exactly length // 8 bytes."""
+    if outcome != 'return':
+        return True
+    from vf.sym import int_term
+    rnd = [e for e in _ext(ev) if e[1].endswith('urandom')]
+    res = I.ghost_globals.get('__result__')
+    if len(rnd) != 1 or not isinstance(res, dict) or res.get('value') is not rnd[0][4]:
+        return "the key returned is not the value of one fresh os.urandom call"
+    n = rnd[0][2][0]
+    ln = I.ghost_globals['__length__']
+    from vf.sym import Opaque
+    iv = getattr(n, 'fields', {}).get('int_value', n)
+    if isinstance(iv, Opaque):
+        return "the number of random bytes requested is not computed from the length"
+    t = int_term(iv) * 8 == int_term(ln)
+    if not (t is True or path.is_valid(t)):
+        return "the number of random bytes is not length / 8"
+    return True
+
+
+c = contract(CE + "create_symmetric_key").props('C06')
+c.args(self=ENGINE, algorithm=ALG, length='nat')
+c.let('__length__', 'length')
+c.allow_external()
+c.raises(('exceptions.InvalidField', 'exceptions.CryptographicFailure'))
+c.trace("fresh-key-of-the-requested-length", t_fresh_key)
+
+
+def t_mac(ev, outcome, exc, path, I):
+    """HMAC(key, table hash) for hash algorithms, CMAC(table cipher(key)) for block ciphers; fed
+    exactly the data; the value returned is the finalize() result."""
+    if outcome != 'return':
+        return True
+    eng = I.ghost_globals['__self__']
+    alg = I.resolve_enum(I.ghost_globals['__alg__'])
+    key, data = I.ghost_globals['__key__'], I.ghost_globals['__data__']
+    ext = _ext(ev)
+    hm = [e for e in ext if e[1].endswith('.HMAC')]
+    cm = [e for e in ext if e[1].endswith('.CMAC')]
+    hashes = eng.fields['_hash_algorithms']
+    ciphers = eng.fields['_symmetric_key_algorithms']
+    if alg in hashes:
+        if len(hm) != 1 or cm:
+            return "a hash algorithm is not computed as one HMAC"
+        h = [e for e in ext if e[4] is (hm[0][2][1] if len(hm[0][2]) > 1 else None)]
+        if hm[0][2][0] is not key or not h or not h[0][1].endswith(hashes[alg].__name__):
+            return "HMAC is not keyed with the given key over the table's hash for %s" % alg.name
+        obj = hm[0]
+    elif alg in ciphers:
+        if len(cm) != 1 or hm:
+            return "a cipher algorithm is not computed as one CMAC"
+        a = [e for e in ext if e[4] is cm[0][2][0]]
+        if not a or not a[0][1].endswith(ciphers[alg].__name__) or a[0][2][0] is not key:
+            return "CMAC is not built from the table's cipher for %s applied to the given key" % alg.name
+        obj = cm[0]
+    else:
+        return "a MAC is returned for an algorithm that is neither a hash nor a cipher of the tables"
+    def owner(e):
+        return getattr(e[2][0], 'fields', {}).get('__owner__') if e[2] else None
+    upd = [e for e in ext if e[1].endswith('.update()') and owner(e) is obj[4]]
+    fin = [e for e in ext if e[1].endswith('.finalize()') and owner(e) is obj[4]]
+    if len(upd) != 1 or upd[0][2][1] is not data or len(fin) != 1:
+        return "the MAC object is not fed exactly the given data and finalized once"
+    if I.ghost_globals.get('__result__') is not fin[0][4]:
+        return "the value returned is not the finalize() result"
+    return True
+
+
+c = contract(CE + "mac").props('C06')
+c.args(self=ENGINE, algorithm=ALG, key=KEY, data='bytes')
+c.let('__self__', 'self').let('__alg__', 'algorithm').let('__key__', 'key').let('__data__', 'data')
+c.allow_external()
+c.raises(('exceptions.InvalidField', 'exceptions.CryptographicFailure'))
+c.trace("hmac-or-cmac-of-the-data-under-the-key", t_mac)
+
+
+# ---------------------------------------------------------------- sign
+def t_sign(ev, outcome, exc, path, I):
+    """The signature returned is key.sign(data, padding, hash) with the key loaded from the given
+    signing key bytes and the hash of the tables (digital signature algorithm pair, or the hash
+    named explicitly)."""
+    if outcome != 'return':
+        return True
+    ext = _ext(ev)
+    loads = [e for e in ext if e[1].endswith('load_pem_private_key') or e[1].endswith('load_der_private_key')]
+    signs = [e for e in ext if e[1].endswith('.sign()')]
+    if len(signs) != 1 or not loads:
+        return "the signature is not produced by one sign() call on a loaded private key"
+    owner = getattr(signs[0][2][0], 'fields', {}).get('__owner__')
+    if not any(owner is e[4] for e in loads) or not all(e[2] and e[2][0] is I.ghost_globals['__key__'] for e in loads):
+        import os
+        if os.environ.get('DBG_SIGN'):
+            print("LOADS", [(e[1], e[2], e[4]) for e in loads], "OWNER", owner, "KEY", I.ghost_globals['__key__'])
+        return "the signing key object is not loaded from the given key bytes"
+    if signs[0][2][1] is not I.ghost_globals['__data__']:
+        return "the data signed is not the given data"
+    if I.ghost_globals.get('__result__') is not signs[0][4]:
+        return "the value returned is not the signature"
+    return True
+
+
+c = contract(CE + "sign").props('C06', 'C13')
+c.args(self=ENGINE, digital_signature_algorithm=('oneof', 'none', ('enum', 'kmip.core.enums.DigitalSignatureAlgorithm')),
+       crypto_alg=('oneof', 'none', ALG), hash_algorithm=('oneof', 'none', ('enum', 'kmip.core.enums.HashingAlgorithm')),
+       padding=PAD, signing_key=KEY, data='bytes')
+c.let('__key__', 'signing_key').let('__data__', 'data')
+c.allow_external()
+c.raises(('exceptions.InvalidField', 'exceptions.CryptographicFailure'))
+c.trace("signature-of-the-data-under-the-given-key", t_sign)
+c.scope('trace.signature', 'C06')
+c.max_paths = 30000
+
+
+# ---------------------------------------------------------------- the error-mapping wrapper (C13)
+c = contract("kmip.services.server.crypto.engine._report_library_errors.wrapper").props('C13', 'C06')
+c.args(self='opaque')
+c.closure(function=('opaque_facts', 'wrapped-function', []))
+c.allow_external()
+c.raises('exceptions.KmipError')
+c.notes.append("for ANY wrapped function: whatever it raises leaves the wrapper as a KmipError")
+
+
+# ---------------------------------------------------------------- raises-only-KMIP-errors for the rest (C13)
+c = contract(CE + "verify_signature").props('C13')
+c.args(self=ENGINE, signing_key='bytes', message='bytes', signature='bytes', padding_method=PAD,
+       signing_algorithm=('oneof', 'none', ALG),
+       hashing_algorithm=('oneof', 'none', ('enum', 'kmip.core.enums.HashingAlgorithm')),
+       digital_signature_algorithm=('oneof', 'none', ('enum', 'kmip.core.enums.DigitalSignatureAlgorithm')))
+c.allow_external()
+c.raises(('exceptions.InvalidField', 'exceptions.CryptographicFailure'))
+c.max_paths = 30000
+
+c = contract(CE + "create_asymmetric_key_pair").props('C13')
+c.args(self=ENGINE, algorithm=ALG, length='int')
+c.allow_external()
+c.raises(('exceptions.InvalidField', 'exceptions.CryptographicFailure'))
+
+
+# ---------------------------------------------------------------- derive_key (KDF parameter plumbing)
+def t_kdf(ev, outcome, exc, path, I):
+    """Each key derivation function is built with the table's hash, the requested output length
+    and the request's salt / iteration count / derivation data in the parameter of that name, and is
+    run on the key material; the value returned is its output."""
+    if outcome != 'return':
+        return True
+    from kmip.core import enums
+    g = I.ghost_globals
+    method = I.resolve_enum(g['__method__'])
+    ext = _ext(ev)
+
+    def one(suffix):
+        c = [e for e in ext if e[1].endswith(suffix)]
+        return c[0] if len(c) == 1 else None
+
+    def owner(e):
+        return getattr(e[2][0], 'fields', {}).get('__owner__') if e[2] else None
+    if method is enums.DerivationMethod.ENCRYPT:
+        return True          # delegates to encrypt(), whose plumbing is _encrypt_symmetric's contract
+    if method is enums.DerivationMethod.HASH:
+        h = one('.Hash')
+        upd = [e for e in ext if e[1].endswith('.update()') and h and owner(e) is h[4]]
+        fin = [e for e in ext if e[1].endswith('.finalize()') and h and owner(e) is h[4]]
+        if not h or len(upd) != 1 or len(fin) != 1 or g.get('__result__') is not fin[0][4]:
+            return "hash derivation is not one Hash fed once and finalized"
+        data = upd[0][2][1]
+        if data is not g['__data__'] and data is not g['__key__']:
+            return "the data hashed is neither the derivation data nor the key material"
+        return True
+    table = {enums.DerivationMethod.HMAC: ('.HKDF', {'salt': '__salt__', 'info': '__data__'}),
+             enums.DerivationMethod.PBKDF2: ('.PBKDF2HMAC', {'salt': '__salt__', 'iterations': '__iter__'}),
+             enums.DerivationMethod.NIST800_108_C: ('.KBKDFHMAC', {'fixed': '__data__'})}
+    if method not in table:
+        return "a value is returned for an unsupported derivation method"
+    suffix, params = table[method]
+    k = one(suffix)
+    if not k:
+        return "the derivation function of the requested method is not built exactly once"
+    kw = k[3]
+    if kw.get('length') is not g['__length__']:
+        return "the output length handed to the derivation function is not the requested length"
+    for pname, gname in params.items():
+        if kw.get(pname) is not g[gname]:
+            return "parameter %s of the derivation function is not the request's value" % pname
+    der = [e for e in ext if e[1].endswith('.derive()') and owner(e) is k[4]]
+    if len(der) != 1 or der[0][2][1] is not g['__key__'] or g.get('__result__') is not der[0][4]:
+        return "the function is not run once on the key material / its output is not what is returned"
+    return True
+
+
+c = contract(CE + "derive_key").props('C06', 'C13')
+c.args(self=ENGINE, derivation_method=('enum', 'kmip.core.enums.DerivationMethod'), derivation_length='nat',
+       derivation_data=OB, key_material=('oneof', 'none', KEY),
+       hash_algorithm=('oneof', 'none', ('enum', 'kmip.core.enums.HashingAlgorithm')), salt=OB,
+       iteration_count=('oneof', 'none', 'nat'), encryption_algorithm=('oneof', 'none', ALG),
+       cipher_mode=MODE, padding_method=PAD, iv_nonce=OB)
+c.let('__method__', 'derivation_method').let('__length__', 'derivation_length').let('__data__', 'derivation_data')
+c.let('__key__', 'key_material').let('__salt__', 'salt').let('__iter__', 'iteration_count')
+c.allow_external()
+c.raises(('exceptions.InvalidField', 'exceptions.CryptographicFailure'))
+c.may_raise_anything()        # library errors: mapped by the wrapper this function is decorated with
+c.trace("kdf-built-from-the-requests-parameters", t_kdf)
+c.scope('trace.kdf', 'C06')
+c.max_paths = 40000
+c.split_by = [('oneof:derivation_data', 2), ('oneof:key_material', 2), ('oneof:salt', 2), ('oneof:iv_nonce', 2)]
